@@ -92,7 +92,15 @@ func vRunOnReceivingNode(hist []VEntry, e VEntry) string {
 		if h.Type != robust.IRCFromClient {
 			return
 		}
-		rt.SetFixedNow(h.UnixNano - 1e6) // 1 ms before the entry's timestamp: "posted quickly"
+		// the wall clock of the handler: 1 ms after the session's previous message ("posts quickly"; with a
+		// clock further away ThrottleUntil starts over at every call)
+		now := h.UnixNano - 1e6
+		in.Srv.sessionsMu.RLock()
+		if s, ok := in.Srv.sessions[h.Session]; ok {
+			now = s.LastActivity.UnixNano() + 1e6
+		}
+		in.Srv.sessionsMu.RUnlock()
+		rt.SetFixedNow(now)
 		for k := 0; k < 10; k++ {
 			in.Srv.ThrottleUntil(h.Session)
 		}
